@@ -6,6 +6,7 @@ mod c01;
 mod c02;
 mod c03;
 mod c04;
+mod c05;
 mod c06;
 mod c07;
 mod c18;
@@ -24,6 +25,7 @@ fn table() -> Vec<(&'static str, RunFn, ReplayFn)> {
         ("C02", c02::run as RunFn, c02::replay as ReplayFn),
         ("C03", c03::run as RunFn, c03::replay as ReplayFn),
         ("C04", c04::run as RunFn, c04::replay as ReplayFn),
+        ("C05", c05::run as RunFn, c05::replay as ReplayFn),
         ("C06", c06::run as RunFn, c06::replay as ReplayFn),
         ("C07", c07::run as RunFn, c07::replay as ReplayFn),
         ("C18", c18::run as RunFn, c18::replay as ReplayFn),
